@@ -23,6 +23,8 @@ extern const void *g_ver_keymat; extern const void *g_ver_data; extern size_t g_
 extern const void *g_ver_sig; extern size_t g_ver_siglen; extern const void *g_ver_raw_r, *g_ver_raw_s; extern size_t g_ver_raw_n; extern int g_ver_valid;
 extern const void *g_sgn_keymat; extern const void *g_sgn_data; extern size_t g_sgn_len; extern int g_sgn_hash, g_sgn_pss, g_sgn_done;
 extern const void *g_der_buf; extern const ECDSA_SIG *g_der_sig;
+extern int g_lib_fail;		/* ghost: the model injected a library failure (allocation, init, ...) */
+extern unsigned g_ver_calls;	/* ghost: number of EVP_DigestVerify calls */
 
 /* (DFCC makes every static arbitrary on entry: digest descriptors are allocated per call) */
 static const EVP_MD *mk_md(int bits)
@@ -58,8 +60,10 @@ unsigned char *HMAC(const EVP_MD *evp_md, const void *key, int key_len, const un
 	__CPROVER_assert(key_len >= 0 && (key_len == 0 || __CPROVER_r_ok(key, key_len)), "HMAC: key readable for key_len bytes");
 	__CPROVER_assert(data_len == 0 || __CPROVER_r_ok(data, data_len), "HMAC: data readable for data_len bytes");
 	__CPROVER_assert(md != NULL && __CPROVER_w_ok(md, evp_md->bits / 8), "HMAC: output buffer takes the digest (a NULL md would be OpenSSL's static buffer)");
-	if (nondet_bool())
+	if (nondet_bool()) {
+		g_lib_fail = 1;
 		return NULL;
+	}
 	__CPROVER_havoc_slice(md, 64);
 	if (md_len) *md_len = (unsigned int)(evp_md->bits / 8);
 	g_mac_key = key; g_mac_keylen = (size_t)key_len; g_mac_data = data; g_mac_len = data_len; g_mac_hash = evp_md->bits; g_mac_out = md;
@@ -69,7 +73,7 @@ unsigned char *HMAC(const EVP_MD *evp_md, const void *key, int key_len, const un
 /* ---- message digest contexts ---- */
 EVP_MD_CTX *EVP_MD_CTX_new(void)
 {
-	if (nondet_bool()) return NULL;
+	if (nondet_bool()) { g_lib_fail = 1; return NULL; }
 	EVP_MD_CTX *c = malloc(sizeof(*c));
 	__CPROVER_assume(c != NULL);
 	c->md = NULL; c->pkey = NULL; c->pctx = NULL; c->mode = 0; c->maxsig = 0;
@@ -82,8 +86,10 @@ static int digest_init(EVP_MD_CTX *ctx, EVP_PKEY_CTX **pctx, const EVP_MD *type,
 {
 	__CPROVER_assert(ctx != NULL && __CPROVER_rw_ok(ctx, sizeof(*ctx)), "EVP_Digest*Init: a valid context");
 	__CPROVER_assert(pkey != NULL && __CPROVER_r_ok(pkey, sizeof(*pkey)), "EVP_Digest*Init: a valid key");
-	if (nondet_bool())
+	if (nondet_bool()) {
+		g_lib_fail = 1;
 		return nondet_bool() ? 0 : -1;
+	}
 	EVP_PKEY_CTX *p = malloc(sizeof(*p));
 	__CPROVER_assume(p != NULL);
 	p->pkey = pkey; p->padding = 0; p->saltlen = 0;
@@ -101,14 +107,14 @@ int EVP_DigestVerifyInit(EVP_MD_CTX *ctx, EVP_PKEY_CTX **pctx, const EVP_MD *typ
 int EVP_PKEY_CTX_set_rsa_padding(EVP_PKEY_CTX *ctx, int pad_mode)
 {
 	__CPROVER_assert(ctx != NULL && __CPROVER_rw_ok(ctx, sizeof(*ctx)), "EVP_PKEY_CTX_set_rsa_padding: a context from Digest*Init");
-	if (nondet_bool()) return -1;
+	if (nondet_bool()) { g_lib_fail = 1; return -1; }
 	ctx->padding = pad_mode;
 	return 1;
 }
 int EVP_PKEY_CTX_set_rsa_pss_saltlen(EVP_PKEY_CTX *ctx, int saltlen)
 {
 	__CPROVER_assert(ctx != NULL && __CPROVER_rw_ok(ctx, sizeof(*ctx)), "EVP_PKEY_CTX_set_rsa_pss_saltlen: a context from Digest*Init");
-	if (nondet_bool()) return -1;
+	if (nondet_bool()) { g_lib_fail = 1; return -1; }
 	ctx->saltlen = saltlen;
 	return 1;
 }
@@ -142,6 +148,7 @@ int EVP_DigestVerify(EVP_MD_CTX *ctx, const unsigned char *sigret, size_t siglen
 	__CPROVER_assert(tbslen == 0 || __CPROVER_r_ok(tbs, tbslen), "EVP_DigestVerify: data readable for tbslen bytes");
 	int r = nondet_int();
 	__CPROVER_assume(r == 1 || r == 0 || r == -1);
+	g_ver_calls++;
 	g_ver_keymat = ctx->pkey; g_ver_data = tbs; g_ver_len = tbslen; g_ver_hash = ctx->md ? ctx->md->bits : 0;
 	g_ver_pss = ctx->pctx->padding == RSA_PKCS1_PSS_PADDING;
 	g_ver_family = family_of(ctx->pkey->id);
@@ -161,7 +168,7 @@ BIGNUM *BN_bin2bn(const unsigned char *s, int len, BIGNUM *ret)
 {
 	__CPROVER_assert(len >= 0 && (len == 0 || __CPROVER_r_ok(s, len)), "BN_bin2bn: source readable for len bytes");
 	__CPROVER_assert(ret == NULL, "BN_bin2bn: model supports a fresh result only");
-	if (nondet_bool()) return NULL;
+	if (nondet_bool()) { g_lib_fail = 1; return NULL; }
 	BIGNUM *b = malloc(sizeof(*b));
 	__CPROVER_assume(b != NULL);
 	b->src = s; b->len = len;
@@ -187,7 +194,7 @@ int BN_bn2bin(const BIGNUM *a, unsigned char *to)
 }
 ECDSA_SIG *ECDSA_SIG_new(void)
 {
-	if (nondet_bool()) return NULL;
+	if (nondet_bool()) { g_lib_fail = 1; return NULL; }
 	ECDSA_SIG *s = malloc(sizeof(*s));
 	__CPROVER_assume(s != NULL);
 	s->r = NULL; s->s = NULL; s->derlen = 0;
